@@ -178,7 +178,8 @@ class MapGen:
             if form != "editor" and rng.random() < 0.3:
                 upus = bytes(rng.choice([0, 1]) for _ in range(64))
         # ---- SWNM
-        sw_names = {i: sref() for i in rng.sample(range(256), rng.randrange(0, 5))}
+        # named switches, half of the time among the lowest ids (the first ones an allocator would hand out)
+        sw_names = {i: sref() for i in rng.sample(range(12) if rng.random() < 0.5 else range(256), rng.randrange(0, 5))}
         swnm = b"".join(struct.pack("<I", sw_names.get(i, 0)) for i in range(256))
         # ---- WAV
         wav_ids = {i: sref() for i in rng.sample(range(512), rng.randrange(0, 4))}
